@@ -47,8 +47,10 @@ def _flat(params, sh):
     return out
 
 
-def observe(conn, log, sh, stmt, mname, nocache=False):
+def observe(conn, log, sh, stmt, mname, nocache=False, val=None):
     opts = sc.opts_for(mname)
+    if val is not None:
+        sh = dict(sh, val=val)
     if nocache:
         opts["compiled_cache"] = None
     r = sc.run(conn, log, sh, stmt, opts)
@@ -65,7 +67,7 @@ def observe(conn, log, sh, stmt, mname, nocache=False):
     o["hit2"] = HIT.get(st[1][2], st[1][2]) if len(st) > 1 else "-"
     rows = r["rows"]
     o["ids"] = [x[0] for x in rows]
-    o["ids2"] = sorted(x[1] for x in rows) if (sh["f"] == "xjoin" and sh["k"] == "sel" and rows and len(rows[0]) > 1) else []
+    o["ids2"] = sorted(x[1] for x in rows) if (((sh["f"] == "xjoin" and sh["k"] == "sel") or sh["k"] == "insm") and rows and len(rows[0]) > 1) else []
     o["rows"] = sorted(rows, key=repr)
     o["rc"] = r["rc"]
     o["lk"] = r["lk"]
@@ -144,7 +146,11 @@ class Ctx:
                     return self.w.tabs[schema]
                 return self.w.tabs[None if e == "main" else e]
             st = sc.build(sh, val, T)
-            t = str(st.compile(dialect=self.E.plain.dialect, compile_kwargs={"render_postcompile": True}))
+            if sh["k"] == "insm":
+                # the multi-row text only exists at execution time: run the statement with the literal schema names, no map, no cache
+                t = sc.run(self.E.pconn, self.E.plog, dict(sh, val=val), st, {})["stmts"][0][0]
+            else:
+                t = str(st.compile(dialect=self.E.plain.dialect, compile_kwargs={"render_postcompile": True}))
             self.translated[k] = t
         return t
 
@@ -173,6 +179,7 @@ class TableChecker:
         ctx, E = self.ctx, self.ctx.E
         sh = sc.parse(name)
         val = self.vals[p - 1]
+        sh["val"] = val
         f = c["f"]
         out = []
         self.n += 1
@@ -196,7 +203,7 @@ class TableChecker:
             if t != o["sql"]:
                 out.append(("schema", "sql", "emitted %r, the construct with translated schema names renders %r" % (o["sql"], t)))
         # mechanism calibration: extracted parameters in traversal order
-        if sh["k"] not in ("lam", "ddl"):
+        if sh["k"] not in ("lam", "ddl", "insm"):
             ck = stmt._generate_cache_key()
             ext = [[(0 if (x is None and sh["k"] == "ins") else x) for x in (bp.value if isinstance(bp.value, list) else [bp.value])]
                    for bp in ck.bindparams]
@@ -223,7 +230,7 @@ class TableChecker:
                     elif same_spec_key and prev[4] != types:
                         out.append(("key", "types", "equal cache keys, different bind types %r vs %r" % (prev[4], types)))
         # literal-rendered string as an independent oracle for the rows
-        if sh["k"] not in ("orm", "ddl", "txt", "typ") and not sc.is_orm(sh):
+        if sh["k"] not in ("orm", "ddl", "txt", "typ", "insm") and not sc.is_orm(sh):
             try:
                 lsql, lrows = sc.run_literal(E.pconn, sh, stmt, sc.MAPS[mname])
                 if sh["k"] in ("sel", "lam") or sh["o"] == "ret":
@@ -306,6 +313,7 @@ class Driver:
             return None
         sh = sc.parse(act["sh"])
         val = self.vals[act["p"] - 1]
+        sh["val"] = val
         mname, mode = act["m"], act["mode"]
         f = self.table[act["sh"]]["cases"][act["p"] - 1][mname]["f"]
         before = self._real_cache()
@@ -386,6 +394,7 @@ class Driver:
                 if self.label([name, p, m]) != lab:
                     continue
                 f = self.table[name]["cases"][p - 1][m]["f"]
+                sh["val"] = self.vals[p - 1]
                 stmt, _ = self._build(sh, self.vals[p - 1])
                 o = observe(E.cconn, E.clog, sh, stmt, m)
                 bad = compare_with_spec(o, f, sh, hit="hit", hit2="-")
